@@ -35,11 +35,17 @@ const (
 )
 
 // Trust configurations (C01 quantifies over them).
-var Trusts = []string{"meta1", "meta2enc", "metanouse", "pinned", "fp256", "fp512", "meta2desc", "metamulti"}
+var Trusts = []string{"meta1", "meta2enc", "metanouse", "pinned", "fp256", "fp512", "meta2desc", "metamulti", "metaroles", "fpprefix", "fpempty"}
+
+// TrustsIDP: the configurations under which the fixture key "idp" is trusted.
+var TrustsIDP = []string{"meta1", "meta2enc", "metanouse", "pinned", "fp256", "fp512", "meta2desc", "metamulti", "metaroles"}
 
 // TrustedKeys lists the fixture keys whose signatures a trust configuration accepts.
 func TrustedKeys(trust string) []string {
 	switch trust {
+	case "fpprefix", "fpempty":
+		// a fingerprint that is not the fingerprint of any certificate trusts nothing
+		return nil
 	case "meta2enc", "meta2desc", "metamulti":
 		return []string{"idp", "idp2"}
 	default:
@@ -139,6 +145,21 @@ func NewSP(c Config) *saml.ServiceProvider {
 		multi := kd("signing", wrap64(idp.CertB64()))
 		multi.KeyInfo.X509Data.X509Certificates = append(multi.KeyInfo.X509Data.X509Certificates, saml.X509Certificate{Data: wrap64(fix.Get("idp2").CertB64())})
 		desc.KeyDescriptors = []saml.KeyDescriptor{multi, kd("encryption", fix.Get("idpenc").CertB64())}
+	case "metaroles":
+		// the entity also acts in other roles, each with its own signing key: only the keys of the
+		// IDPSSODescriptor vouch for single sign-on messages (the other roles are added below)
+		desc.KeyDescriptors = []saml.KeyDescriptor{kd("signing", idp.CertB64())}
+	case "fpprefix", "fpempty":
+		// a truncated / empty fingerprint: it is no certificate's fingerprint.  The prefix is that of the
+		// certificate of the untrusted fixture key, the most favourable case for a prefix comparison.
+		desc.KeyDescriptors = []saml.KeyDescriptor{kd("encryption", fix.Get("idpenc").CertB64()), kd("signing", fix.Get("idp2").CertB64())}
+		alg := "http://www.w3.org/2001/04/xmlenc#sha256"
+		fp := ""
+		if c.Trust == "fpprefix" {
+			fp = fingerprint(fix.Get("attacker").Cert.Raw, "sha256")[:2]
+		}
+		sp.IDPCertificateFingerprint = &fp
+		sp.IDPCertificateFingerprintAlgorithm = &alg
 	case "pinned":
 		// metadata carries decoys (the encryption-only key and ANOTHER signing key): the pinned
 		// certificate is what counts, the metadata certificates must not be trusted beside it
@@ -164,6 +185,16 @@ func NewSP(c Config) *saml.ServiceProvider {
 		second := saml.IDPSSODescriptor{}
 		second.KeyDescriptors = []saml.KeyDescriptor{kd("signing", fix.Get("idp2").CertB64())}
 		md.IDPSSODescriptors = append(md.IDPSSODescriptors, second)
+	}
+	if c.Trust == "metaroles" {
+		role := func(key string) saml.RoleDescriptor {
+			return saml.RoleDescriptor{ProtocolSupportEnumeration: "urn:oasis:names:tc:SAML:2.0:protocol", KeyDescriptors: []saml.KeyDescriptor{kd("signing", fix.Get(key).CertB64()), kd("", fix.Get(key).CertB64())}}
+		}
+		md.RoleDescriptors = []saml.RoleDescriptor{role("idpenc")}
+		md.AttributeAuthorityDescriptors = []saml.AttributeAuthorityDescriptor{{RoleDescriptor: role("idp2")}}
+		md.AuthnAuthorityDescriptors = []saml.AuthnAuthorityDescriptor{{RoleDescriptor: role("idp2")}}
+		md.PDPDescriptors = []saml.PDPDescriptor{{RoleDescriptor: role("attacker")}}
+		md.SPSSODescriptors = []saml.SPSSODescriptor{{SSODescriptor: saml.SSODescriptor{RoleDescriptor: role("attacker")}}}
 	}
 	sp.IDPMetadata = md
 	return sp
